@@ -7,7 +7,4 @@ CONSTANTS
   NVSpace = "tiny"
   NCompoundV = "tiny"
   NKinds = {"isinstance", "issubclass", "typeis", "typeguard", "is", "eq", "in", "truthy", "len", "c_isinstance", "c_isvalue", "not", "and", "or", "deep"}
-INVARIANT InvN1
-INVARIANT InvN2
-INVARIANT InvN3
 CHECK_DEADLOCK FALSE
